@@ -73,6 +73,13 @@ def findPivot (θ : Nat) : List TermList → Nat → Option Nat
     | none => findPivot θ ts acc
     | some d => if θ < acc + t.maxScore then some d else findPivot θ ts (acc + t.maxScore)
 
+/-- a term scorer positioned (by `seek_block`) on the block that may contain the pivot: the
+block's stored bound and its last document -/
+structure BlockView where
+  t : TermList
+  blockMax : Nat
+  lastDoc : Nat
+
 /-- total score of a document over all term lists -/
 def totalScore (ts : List TermList) (doc : Nat) : Nat := (ts.map (·.scoreOf doc)).sum
 
